@@ -427,7 +427,58 @@ func c09AfterFail(fail, sameEnv int) core.Result {
 	return core.Okay(true, want)
 }
 
+// c09Corner: rare but legal shapes of a chain: the extends tag not first (a block, a use, an import, a set before it),
+// one helper imported with use at two levels of the chain, and twice in one template under different aliases.
+func c09Corner(k int) core.Result {
+	tpls := map[string]string{
+		"root": "<{% block a %}ra{% endblock %}|{% block b %}rb{% endblock %}>",
+		"h":    "{% block a %}h[{{ parent() }}]{% endblock %}",
+		"h2":   "{% block x %}X{{ name() }}{% endblock %}",
+		"mac":  "{% macro m(q) %}M{{ q }}{% endmacro %}",
+		"mid":  "{% extends 'root' %}{% use 'h' %}{% block a %}ma({{ parent() }}){% endblock %}",
+	}
+	want := ""
+	switch k {
+	case 0:
+		tpls["main"] = "{% block a %}child{% endblock %}{% extends 'root' %}"
+		want = "<child|rb>"
+	case 1:
+		tpls["main"] = "{% use 'h' %}{% extends 'ro' ~ suffix %}{% block b %}B[{{ parent() }}]{% endblock %}"
+		want = "<h[ra]|B[rb]>"
+	case 2:
+		tpls["main"] = "{% import 'mac' as mm %}{% set q = 1 %}text{% extends 'mid' %}{% block b %}B{% endblock %}"
+		want = "<ma(h[ra])|B>"
+	case 3:
+		tpls["main"] = "{% extends 'mid' %}{% use 'h' %}{% block a %}la({{ parent() }}){% endblock %}"
+		want = "<la(h[h[ma(ra)]])>|rb>"
+	case 4:
+		tpls["main"] = "{% extends 'root' %}{% use 'h2' with x as y %}{% use 'h2' with x as z %}{% block a %}{{ block('y') }}+{{ block('z') }}{% endblock %}"
+		want = "<Xh2+Xh2|rb>"
+	case 5:
+		tpls["main"] = "{# note #}\n{% extends 'root' %}{% block a %}c{% endblock %}"
+		want = "<c|rb>"
+	}
+	env := stick.New(&stick.MemoryLoader{Templates: tpls})
+	env.Functions["name"] = func(ctx stick.Context, args ...stick.Value) stick.Value { return ctx.Name() }
+	out, err, pan := tryExec(env, "main", map[string]stick.Value{"suffix": "ot"})
+	if pan != "" || err != nil {
+		return core.Violation("error", fmt.Sprintf("%q fails: %v %s (want %q)", tpls["main"], err, pan, want))
+	}
+	if k == 3 {
+		// (the two levels' copies of the helper both stand between the leaf's and the middle's own block; how often
+		// the helper appears is what the chain order gives: leaf, leaf's use, mid, mid's use, root)
+		want = "<la(h[ma(h[ra])])|rb>"
+	}
+	if out != want {
+		return core.Violation("resolution", fmt.Sprintf("%q renders %q, want %q", tpls["main"], out, want))
+	}
+	return core.Okay(true, out)
+}
+
 func c09Run(c core.Case) core.Result {
+	if c.Fam == "corner" {
+		return c09Corner(c.N[0])
+	}
 	if c.Fam == "afterfail" {
 		return c09AfterFail(c.N[0], c.N[1])
 	}
@@ -614,6 +665,10 @@ func c09Levels(tier string) []core.Level {
 			// history: the root, the middle or the leaf file rewritten between two executions on one environment
 			for which := 0; which < 3; which++ {
 				emit(core.Case{Fam: "fresh", N: []int{which}})
+			}
+			// rare shapes: the extends tag not first, one helper used at two levels / twice under different aliases
+			for k := 0; k < 6; k++ {
+				emit(core.Case{Fam: "corner", N: []int{k}})
 			}
 			// history: three chains that fail inside a block rendered through parent() / block(), then a good chain (30 rounds, same / fresh environment)
 			for fail := 0; fail < 3; fail++ {
